@@ -19,8 +19,8 @@ type loadCase struct {
 	desc    string
 	format  string
 	text    string
-	envFile string // content of env_file "envf" next to the config ("" = none)
-	part    string // content of "part.yaml" next to the config ("" = none)
+	envFile string            // content of env_file "envf" next to the config ("" = none)
+	part    string            // content of "part.yaml" next to the config ("" = none)
 	files   map[string]string // further files next to the config (relative path -> content)
 	tasks   []string
 	pipes   []string
@@ -94,13 +94,31 @@ func loadCaseRun(col *Collector, lc loadCase, tag string) {
 			cs.Fail, cs.Sig = fmt.Sprintf("list (document as the global configuration): exit=%d timeout=%v: %s", r.exit, r.timedOut, clipStr(firstPanicLine(r.stderr), 200)), "c15-global-config-crash"
 		}
 	}
+	if cs.Fail == "" {
+		// `validate <file>` needs a loadable project configuration of its own (the root command loads one first):
+		// run it from a directory with a sound tasks.yaml, for EVERY document - loadable or not
+		vdir := filepath.Join(dir, "validate")
+		os.MkdirAll(vdir, 0755)
+		os.WriteFile(filepath.Join(vdir, "tasks.yaml"), []byte("tasks:\n  sound:\n    command: [\"true\"]\n"), 0644)
+		r := runTaskctl(vdir, nil, 8*time.Second, "validate", cfgPath)
+		if r.timedOut || r.panicked || (r.exit != 0 && r.exit != 1) {
+			cs.Fail, cs.Sig = fmt.Sprintf("validate <file> (from a sound project): exit=%d timeout=%v: %s", r.exit, r.timedOut, clipStr(firstPanicLine(r.stderr), 200)), "c15-validate-crash"
+		} else if !strings.Contains(r.stdout, "file is valid") && strings.TrimSpace(r.stdout+r.stderr) == "" {
+			cs.Fail, cs.Sig = "validate <file> printed neither a verdict nor an error", "c15-validate-silent"
+		}
+	}
 	if cs.Fail != "" {
 		col.Add(cs)
 		return
 	}
 	if check("list", "-c", cfgPath, "list") {
 		cs.Tags = append(cs.Tags, "loaded")
-		ok := check("validate", "validate", cfgPath)
+		for _, sub := range []string{"tasks", "pipelines", "watchers"} {
+			if cs.Fail == "" {
+				check("list "+sub, "-c", cfgPath, "list", sub)
+			}
+		}
+		ok := check("validate", "-c", cfgPath, "validate", cfgPath)
 		for _, t := range lc.tasks {
 			if cs.Fail != "" {
 				break
@@ -283,9 +301,9 @@ func runC15(col *Collector, tier string, seed int64) {
 		}
 		list := strings.Join(q, ", ")
 		mains := map[string]string{
-			"yaml": "import: [" + list + "]\ntasks:\n  shared: {command: [\"echo main\"]}\n  t: {command: [\"true\"]}\n",
-			"json": "{\"import\": [" + list + "], \"tasks\": {\"shared\": {\"command\": [\"echo main\"]}, \"t\": {\"command\": [\"true\"]}}}",
-			"toml": "import = [" + list + "]\n[tasks.shared]\ncommand = [\"echo main\"]\n[tasks.t]\ncommand = [\"true\"]\n",
+			"yaml":      "import: [" + list + "]\ntasks:\n  shared: {command: [\"echo main\"]}\n  t: {command: [\"true\"]}\n",
+			"json":      "{\"import\": [" + list + "], \"tasks\": {\"shared\": {\"command\": [\"echo main\"]}, \"t\": {\"command\": [\"true\"]}}}",
+			"toml":      "import = [" + list + "]\n[tasks.shared]\ncommand = [\"echo main\"]\n[tasks.t]\ncommand = [\"true\"]\n",
 			"yaml-bare": "import: [" + list + "]\n",
 		}
 		for mf, text := range mains {
